@@ -10,6 +10,23 @@ BASELINE_OFF = ("cd /repo && env -u STRENGTHS_VERIF /venv/bin/python -m pytest -
 
 # pid -> (technique, level text, level note, design ref)
 CLAIMED = {
+    "C05": (
+        "Coq proof that the operator model is a homomorphism into SI arithmetic (induction over expression trees) + dispatch-path correspondence",
+        "Theorems (Props/C05.v, closed under the global context): for every expression tree over numbers, quantities and arrays with "
+        "+ - * / % ** neg abs, the SI image of what the operator model computes equals arithmetic on SI values and dimension vectors "
+        "(C05_SI_homomorphism), both fail on exactly the same trees (C05_error_iff), comparisons likewise (C05_comparisons); the SI result "
+        "is independent of the systems the operand quantities are stored in (C05_storage_independent) and of operand order for + and *; "
+        "different dimensions in + - % and ordering comparisons, arrays of different length and non-integral resulting exponents are "
+        "errors. The operator model mirrors units.py branch by branch (which operand is converted, where the result is stored, Python's "
+        "reflected dispatch) and is tied to it on every run by enumerating every dispatch path (69 paths: operand kinds x operators, "
+        "direct and reflected, unary, powers, comparisons) with operands from all 1100 systems, plus random trees of depth <= 4; the "
+        "verdict (system and dimension exactly, values at relative 1e-9) is computed in Coq.",
+        "Trusted: Coq kernel + VM; the hand-written operator model (tied by correspondence, sampled operands on an exhaustive list of "
+        "dispatch paths); division/modulo by zero and non-finite results are outside the property's quantifier, the model totalises "
+        "them (x/0 = 0) and the generator never produces them; cases within 1e-6 of a discontinuity of % or a comparison, or with "
+        "cancellation below 1/10, are discarded (counted in the evidence); == between different dimensions returns False (documented "
+        "behaviour) rather than raising; the Python harness.",
+        "DESIGN.md section 6 / C05"),
     "C06": (
         "Coq proof over exact-rational unit model + exhaustive table correspondence (vm_compute verdict)",
         "Theorems (Props/C06.v, all closed under the global context): conversion multiplies by the product of "
